@@ -391,6 +391,15 @@ async def client_cancel(part, backend):
                         raw = await c.send(b'\r\n')
                 after = await status()
                 part.case(key=f'client-cancel:{backend}:{nbefore}:{plus}', nontrivial=nbefore > 0, sample=case)
+                # tie: AppendCancel.doAppend (about which C14_client_cancel is proved) on the same literals
+                if isinstance(before, tuple) and isinstance(after, tuple):
+                    from .common.model import batch
+                    mod = batch([f'appendcancel {before[0]} ' + ','.join([f'm{len(m_)}' for m_ in msgs] + ['e'])])[0]
+                    tagged_ = [l for l in raw.split(b'\r\n') if l.startswith(b'c ')]
+                    impl = (tagged_[-1].split(b' ')[1].decode() if tagged_ else '?') + f' {after[0]}'
+                    if impl != mod:
+                        part.violation('correspondence', f'{backend}: APPEND called off after {nbefore} message(s): answered/holds {impl}, AppendCancel.doAppend gives {mod}', case,
+                                       signature='client-cancel-model')
                 part.stat('client-cancel')
                 tagged = [l for l in raw.split(b'\r\n') if l.startswith(b'c ')]
                 if not tagged or not tagged[-1].startswith(b'c NO'):
